@@ -14,7 +14,7 @@ Handler `sconn`: executable face of `Model/SConn.lean` (hosting and orientation 
   statements).
 
 Reply (one line):
-`valid <0|1> nodup <0|1> cyclic <0|1> verdict <ok|TypeError|RTLIRConversionError> nets ((w (reached…)) …) tree ((u v) …)
+`valid <0|1> nodup <0|1> netsok <0|1> cyclic <0|1> verdict <ok|TypeError|RTLIRConversionError> nets ((w (reached…)) …) tree ((u v) …)
  filed ((c ((u v) …)) …) emit ((c ok ((u v) …)) | (c err <class>) …) assigns ((c u v) …)`
 — `reached` and `filed` sorted, `tree` in filing order, `emit` / `assigns` in emission order; components `1 … n-1`.
 A request with ids out of range is `bad-op`.
@@ -80,7 +80,7 @@ def handle : List Sexp → Option String
         | .ok l => s!"({c} ok {showPairs l})"
         | .error e => s!"({c} err {e.pyClass})")
       let asgS := (assignsOf H T).map (fun a => s!"({a.1} {a.2.1} {a.2.2})")
-      some (s!"valid {b01 (validOrderB H nb)} nodup {b01 (stmtsNodupB H)} cyclic {b01 (PV.Nets.cyc H.edges)} verdict {v} " ++
+      some (s!"valid {b01 (validOrderB H nb)} nodup {b01 (stmtsNodupB H)} netsok {b01 (netsOkB H)} cyclic {b01 (PV.Nets.cyc H.edges)} verdict {v} " ++
             s!"nets ({" ".intercalate netsS}) tree {showPairs T} " ++
             s!"filed ({" ".intercalate filedS}) emit ({" ".intercalate emitS}) assigns ({" ".intercalate asgS})")
   | _ => none
